@@ -30,12 +30,13 @@ def hexVal (b : Nat) : Nat :=
 
 def hexChar (d : Nat) : Nat := if d < 10 then 48 + d else 87 + d
 
-/-- lowercase hex digits of `n`, most significant first (`"0"` for 0) -/
-def hexDigitsAux : Nat → Nat → Bytes → Bytes
-  | 0, _, acc => acc
-  | f + 1, n, acc => if n < 16 then hexChar n :: acc else hexDigitsAux f (n / 16) (hexChar (n % 16) :: acc)
+/-- lowercase hex digits of `n`, least significant first (fuel `f`) -/
+def hexDigitsRev : Nat → Nat → Bytes
+  | 0, _ => []
+  | f + 1, n => if n < 16 then [hexChar n] else hexChar (n % 16) :: hexDigitsRev f (n / 16)
 
-def hexDigits (n : Nat) : Bytes := hexDigitsAux (n + 1) n []
+/-- lowercase hex digits of `n`, most significant first (`"0"` for 0) -/
+def hexDigits (n : Nat) : Bytes := (hexDigitsRev (n + 1) n).reverse
 
 def hexValue (ds : Bytes) : Nat := ds.foldl (fun a d => a * 16 + hexVal d) 0
 
@@ -209,11 +210,13 @@ def rByte (s : RState) (b : Nat) : RState × Option RFrame :=
   | .body ty fl sid need acc =>
     if acc.length + 1 = need then (.hdr [], some ⟨ty, fl, sid, acc ++ [b]⟩) else (.body ty fl sid need (acc ++ [b]), none)
 
+def rStep (st : RState × List RFrame) (b : Nat) : RState × List RFrame :=
+  ((rByte st.1 b).1, match (rByte st.1 b).2 with
+    | some f => st.2 ++ [f]
+    | none => st.2)
+
 /-- one socket read -/
-def rFeed (s : RState) (seg : Bytes) : RState × List RFrame :=
-  seg.foldl (fun (st : RState × List RFrame) b =>
-    let r := rByte st.1 b
-    (r.1, match r.2 with | some f => st.2 ++ [f] | none => st.2)) (s, [])
+def rFeed (s : RState) (seg : Bytes) : RState × List RFrame := seg.foldl rStep (s, [])
 
 def rFeedAll (s : RState) : List Bytes → RState × List RFrame
   | [] => (s, [])
